@@ -462,11 +462,29 @@ def _untracked(o):
     return True
 
 
-def w_AsynchronousGraph(network, *a, **k):
+def _mk_graph(network, *a, **k):
     real = REAL["AsynchronousGraph"](unwrap(network), *a, **k)
     if not CTX.active or CTX.opaque > 0 or _untracked(network):
         return real
     return GraphProxy(real, nctx_of(network))
+
+
+class _GraphFacadeMeta(type):
+    """the name `AsynchronousGraph` inside biobalm: calling it builds an audited handle, isinstance() against it
+    accepts real graphs and handles alike (library code may test the type of its argument)"""
+
+    def __call__(cls, network, *a, **k):
+        return _mk_graph(network, *a, **k)
+
+    def __instancecheck__(cls, o):
+        return isinstance(unwrap(o), REAL["AsynchronousGraph"])
+
+    def __getattr__(cls, name):
+        return getattr(REAL["AsynchronousGraph"], name)
+
+
+class w_AsynchronousGraph(metaclass=_GraphFacadeMeta):
+    pass
 
 
 class _BNFacade:
